@@ -758,6 +758,8 @@ pub fn process_request(input: &str, dbs: &Arc<Databases>, client: &mut Client) -
     );
 
     let result = process_request_obj(&request, &dbs, client);
+    #[cfg(feature = "verif")]
+    crate::verif::point("replicate:after_apply");
 
     let elapsed = start.elapsed();
     log::info!(
